@@ -296,6 +296,7 @@ def r2(repo, res):
 
     tmp = Result("C19")
     c19.r2(repo, tmp)
+    c19.r2_constructor(repo, tmp)
     for o in tmp.obligations:
         if o["site"].startswith("sam::"):
             res.obligations.append(dict(o, rule="C07.R2"))
